@@ -402,6 +402,89 @@ class Split(Part):
         return out
 
 
+def switch_params(name):
+    """(parameter name, options) of every Switcher of a model: the mode / flag parameters that select equations."""
+    import andes
+    ss = andes.System(no_output=True, default_config=True)
+    mdl = ss.models[name]
+    out = []
+    for d in mdl.discrete.values():
+        if type(d).__name__ == 'Switcher' and getattr(d, 'u', None) is not None:
+            out.append((d.u.name, list(d.options)))
+    return out
+
+
+class Modes(Part):
+    """Every equation-selecting mode of every attachable model, one deviation from the attach defaults at a time; stabilisers
+    with every pair of input modes and local / remote signal buses."""
+    name = 'modes'
+    chunk = 2
+    timeout = 600.0
+    nproc = 8
+
+    def describe(self, tier):
+        return ('base system + each attachable model x each option of each of its Switcher parameters (single deviations from the '
+                'attach defaults); IEEEST: MODE x remote bus in (none, bus 1); ST2CUT: MODE x MODE2 x (both signals local | both '
+                'remote on different buses): truthfulness, success under the precondition, undisturbed 1 s run')
+
+    def cases(self, tier):
+        out = []
+        for m, g in attachable():
+            for pname, options in switch_params(m):
+                for opt in options:
+                    if m in ('IEEEST', 'ST2CUT') and pname in ('MODE', 'MODE2'):
+                        continue
+                    out.append([m, {pname: opt}])
+        for mode in range(1, 7):
+            for busr in (None, 1):
+                out.append(['IEEEST', dict(MODE=mode, busr=busr)])
+        for m1 in range(1, 7):
+            for m2 in range(0, 7):
+                out.append(['ST2CUT', dict(MODE=m1, MODE2=m2, busr=None, busr2=None, K1=1.0, K2=2.0)])
+                out.append(['ST2CUT', dict(MODE=m1, MODE2=m2, busr=1, busr2=3, K1=1.0, K2=2.0)])
+        return out
+
+    def execute(self, case):
+        out = Outcome()
+        seen = set()
+
+        def bad(sig, msg):
+            if sig not in seen:
+                seen.add(sig)
+                out.bad(sig, msg)
+        m, over = case
+        ss = base_system()
+        groups = dict(attachable())
+        try:
+            for model, params in CHAINS[groups[m]](m):
+                p = dict(params)
+                if model == m:
+                    p.update({k: v for k, v in over.items()})
+                ss.add(model, p)
+            if not ss.setup():
+                out.obs = dict(skipped='setup returned False')
+                return out
+            systems.quiet_tds(ss)
+            if not ss.PFlow.run():
+                out.obs = dict(skipped='power flow failed')
+                return out
+        except Exception as e:
+            out.obs = dict(skipped=f'not attachable with these values: {type(e).__name__}: {e}'[:200])
+            return out
+        try:
+            ss.TDS.init()
+        except Exception as e:
+            import traceback
+            tb = traceback.extract_tb(e.__traceback__)
+            bad(f'init_raises:{type(e).__name__}@{tb[-1].name if tb else "?"}:{m}', f'{case}: {type(e).__name__}: {e}')
+            return out
+        key = ','.join(f'{k}={v}' for k, v in over.items() if k.upper().startswith(('MODE', 'BUSR')) or len(over) == 1)
+        out.obs = dict(case=case, **audit_init(ss, bad, f'{m}[{key}]', sig_by_owner=True))
+        out.nontrivial = True
+        out.transitions = 3
+        return out
+
+
 class LoadMix(Part):
     """The static load's time-domain form (constant power / current / impedance mix) must reproduce the power-flow load."""
     name = 'loadmix'
@@ -457,7 +540,7 @@ class LoadMix(Part):
 
 
 def parts(tier):
-    return [Stock(), Attach(tier), Split(), LoadMix()]
+    return [Stock(), Attach(tier), Split(), LoadMix(), Modes()]
 
 
 def run(run, only=None):
